@@ -12,7 +12,7 @@ import (
 // set is the same, the tree went through the hostname split/merge paths of insert and remove).
 func SetupC09Host() any {
 	st := SetupC01Lookup().(*lookupState)
-	if sym.Param("hist") == 1 {
+	if sym.ParamOr("hist", 0) == 1 {
 		for _, rt := range st.set.Routes {
 			slash := 0
 			for rt.Pattern[slash] != '/' {
